@@ -210,6 +210,13 @@ pub(super) fn compile_instruction(ctx: &mut Context, instruction: Instruction, a
     // shorthand
     let buffer = &mut ctx.state.stmts;
 
+    // the leading wait byte of fsave / fstcw / fstenv / fstsw and friends is an instruction of its own,
+    // any prefix of the actual instruction has to follow it.
+    if let (&[0x9B, _, ..], false) = (ops, data.flags.intersects(Flags::VEX_OP | Flags::XOP_OP)) {
+        buffer.push(Stmt::u8(0x9B));
+        ops = &ops[1..];
+    }
+
     // legacy-only prefixes
     if let Some(pref) = pref_seg {
         buffer.push(Stmt::u8(pref));
